@@ -1,6 +1,6 @@
 (* C14 -- The parser follows the documented grammar and rejects everything else cleanly.
-   Statements only; every proof is `exact <lemma>` (Proofs/ParserProofs.v, ParserProofs2.v, LexerProofs.v) or a
-   closed computation.  The precedence tuple, productions, token list, reserved words and lexer regexes are
+   Statements only; every proof is `exact <lemma>` (Proofs/ParserProofs.v, ParserProofs2.v, ParserProofsCanon.v,
+   ParserProofsFuel.v, ParserProofsX.v, ParserProofsConv.v, LexerProofs.v) or a closed computation.  The precedence tuple, productions, token list, reserved words and lexer regexes are
    REGENERATED from parserYacc.py / parserLex.py (Gen/GrammarGen.v) on every run; the model parser reads its
    binding powers from that table, so these theorems are re-checked against what the source says now.
 
@@ -8,9 +8,12 @@
    tun : a time value -> a text that a repaired printer would write; tshow : what str(Time) writes
    ev f x := exists n, forall fuel >= n, f fuel = POk x            -- "for all large enough fuel" (never PFuel) *)
 From Coq Require Import ZArith List Bool String Ascii Lia.
-From V Require Import Model.ExprTree Model.Lexer Model.Parser Gen.GrammarGen
-                      Proofs.ParserProofs Proofs.ParserProofs2 Proofs.LexerProofs.
+From V Require Import Model.Expr Model.SqlExpr
+                      Model.ExprTree Model.Lexer Model.Parser Model.ParserConv Gen.GrammarGen
+                      Proofs.ParserProofs Proofs.ParserProofs2 Proofs.LexerProofs
+                      Proofs.ParserProofsCanon Proofs.ParserProofsFuel Proofs.ParserProofsX Proofs.ParserProofsConv.
 Import ListNotations.
+Close Scope Z_scope.   (* opened by Model/Expr.v *)
 Open Scope string_scope.
 Open Scope list_scope.
 
@@ -259,3 +262,170 @@ Example range_value_hyps :
 Proof. vm_compute. repeat split; try discriminate; auto. Qed.
 Example keyword_case_example : keyword_of "aNd" = Some TAND /\ keyword_of "android" = None /\ upper "aNd" = "AND".
 Proof. vm_compute. auto. Qed.
+
+(* ===================================================================== converse of the round trip, fuel, strings *)
+(* tok_wf: a NUMERIC token has no sign, a SIMPLE_IDENTIFIER token has no dot -- true of everything the lexer emits
+   (lexer_tokens_wf); tun_inverts tv tun: the text a repaired printer writes for a time value parses back to it *)
+
+(* every tree the parser returns, for any fuel and any well-formed token list, is canonical *)
+Theorem parse_canonical : forall tv tun, tun_inverts tv tun ->
+  forall fuel ts t, toks_wf ts = true -> parse tv fuel ts = POk (Some t) -> canonical tv tun t = true.
+Proof. exact parse_canonical_p. Qed.
+Print Assumptions parse_canonical.
+
+Theorem lexer_tokens_wf : forall s, toks_wf (lex s) = true.
+Proof. exact lex_wf_p. Qed.
+Print Assumptions lexer_tokens_wf.
+
+Theorem parse_string_canonical : forall tv tun, tun_inverts tv tun ->
+  forall s t, parse_string tv s = POk (Some t) -> canonical tv tun t = true.
+Proof. exact parse_string_canonical_p. Qed.
+Print Assumptions parse_string_canonical.
+
+(* fuel_for (12 * tokens + 20) is enough for every token list, and more fuel never changes the answer *)
+Theorem fuel_adequate : forall tv ts fuel, fuel_for ts <= fuel -> parse tv fuel ts <> PFuel.
+Proof. exact ParserProofsFuel.fuel_adequate. Qed.
+Print Assumptions fuel_adequate.
+
+Theorem fuel_monotone : forall tv f f' ts, f <= f' -> parse tv f ts <> PFuel -> parse tv f' ts = parse tv f ts.
+Proof. exact parse_fuel_mono. Qed.
+Print Assumptions fuel_monotone.
+
+Theorem fuel_stable : forall tv ts fuel, fuel_for ts <= fuel -> parse tv fuel ts = parse_tokens tv ts.
+Proof. exact parse_fuel_stable. Qed.
+Print Assumptions fuel_stable.
+
+Theorem parse_string_total : forall tv s, parse_string tv s <> PFuel.
+Proof. exact parse_string_total_p. Qed.
+Print Assumptions parse_string_total.
+
+(* the round trip without "large enough fuel": with the fuel the model really uses *)
+Theorem parse_print_tokens : forall tv tun t,
+  canonical tv tun t = true -> parse_tokens tv (print_fix tun t) = POk (Some t).
+Proof. exact parse_print_tokens_p. Qed.
+Print Assumptions parse_print_tokens.
+
+Theorem print_fix_injective : forall tv tun t1 t2, canonical tv tun t1 = true -> canonical tv tun t2 = true ->
+  print_fix tun t1 = print_fix tun t2 -> t1 = t2.
+Proof. exact print_fix_injective_p. Qed.
+Print Assumptions print_fix_injective.
+
+(* the clause "printing a parse tree and parsing it again yields the same tree", for EVERY string that parses
+   (repaired printer; with the existing Node.__str__ for trees without TimeLiteral / BindName) *)
+Theorem reparse_string : forall tv tun, tun_inverts tv tun -> forall s t,
+  parse_string tv s = POk (Some t) -> parse_tokens tv (print_fix tun t) = POk (Some t).
+Proof. exact reparse_string_p. Qed.
+Print Assumptions reparse_string.
+
+Theorem reparse_string_partial : forall tv tun, tun_inverts tv tun -> forall tshow s t,
+  parse_string tv s = POk (Some t) -> plain t = true -> parse_tokens tv (print tshow t) = POk (Some t).
+Proof. exact reparse_string_partial_p. Qed.
+Print Assumptions reparse_string_partial.
+
+Example tun_inverts_satisfiable : tun_inverts tv_id (fun v => v).
+Proof. intros s v _. reflexivity. Qed.
+Example reparse_example :
+  parse_string tv_id "NOT a.b < -1 + c*2 OR d IN (-1, 2..5:3, :x) AND (T'2020-01-01', e) OVERLAPS f(1)" =
+  POk (Some (Binary (Unary UNot (Binary (Ident "a.b") BLt (Binary (Unary UMinus (Num "1")) BAdd (Binary (Ident "c") BMul (Num "2"))))) BOr
+               (Binary (IsIn (Ident "d") [Num "-1"; Range 2 5 (Some 3%Z); Bind "x"] false) BAnd
+                  (Binary (Tuple (Time "2020-01-01") (Ident "e")) BOverlaps (Call "f" [Num "1"]))))).
+Proof. vm_compute. reflexivity. Qed.
+
+(* ===================================================================== the conversion layer (typing) *)
+(* of_tree : ExprTree.tree -> C05's Expr.expr (identifier / bind resolution res, bound as parameters), then C05's
+   SqlExpr.conv (None = InvalidQueryError).  typeof = the documented typing (C05).  quirk_free e: no `/` and no IN
+   with a time member -- the two places where the code's typing is known to differ from the documented one. *)
+
+(* conv accepts only documented-well-typed boolean expressions ... *)
+Theorem conv_accepts_typed : forall e f, quirk_free e = true -> conv e = Some f -> typeof e = Some DBool.
+Proof. exact conv_accepts_typed_p. Qed.
+Print Assumptions conv_accepts_typed.
+
+(* ... i.e. an ill-typed expression is rejected (partial: guard quirk_free) *)
+Theorem rejects_ill_typed_partial : forall e, quirk_free e = true -> typeof e <> Some DBool -> conv e = None.
+Proof. exact rejects_ill_typed_p. Qed.
+Print Assumptions rejects_ill_typed_partial.
+
+(* without the guard the faithful model refutes it: C05's findings range-on-quotient and time-in-is-equality *)
+Theorem rejects_ill_typed_refuted :
+  (exists e, typeof e = None /\ conv e <> None /\ quirk_free e = false) /\
+  typeof (EIn (EArith ODiv (ECol 1%N TyInt) (ELit (VInt 2))) [IRange 1 2 None] false) = None /\
+  conv (EIn (EArith ODiv (ECol 1%N TyInt) (ELit (VInt 2))) [IRange 1 2 None] false) <> None /\
+  typeof (EIn (EBegin (ECol 2%N TySpan)) [ILit (VTime 10); ILit (VTime 20)] false) = None /\
+  conv (EIn (EBegin (ECol 2%N TySpan)) [ILit (VTime 10); ILit (VTime 20)] false) <> None.
+Proof. exact rejects_ill_typed_refuted_p. Qed.
+Print Assumptions rejects_ill_typed_refuted.
+
+(* the whole path lexer, parser, of_tree, conv: what an accepted string is *)
+Theorem accept_spec : forall res bound tns tv tun s, tun_inverts tv tun -> where_verdict res bound tns tv s = Accept ->
+  parse_string tv s = POk None \/
+  exists t e f, parse_string tv s = POk (Some t) /\ canonical tv tun t = true /\ of_tree res bound tns t = TConv e /\ conv e = Some f.
+Proof. exact accept_spec_p. Qed.
+Print Assumptions accept_spec.
+
+Theorem accept_well_typed : forall res bound tns tv s t e,
+  parse_string tv s = POk (Some t) -> of_tree res bound tns t = TConv e -> quirk_free e = true ->
+  where_verdict res bound tns tv s = Accept -> typeof e = Some DBool.
+Proof. exact accept_well_typed_p. Qed.
+Print Assumptions accept_well_typed.
+
+(* "any string that is not a valid, well-typed expression is rejected": not valid ... *)
+Theorem invalid_rejected : forall res bound tns tv s e, parse_string tv s = PErr e -> where_verdict res bound tns tv s = Reject.
+Proof. exact invalid_rejected_p. Qed.
+Print Assumptions invalid_rejected.
+
+(* ... valid but ill typed (no claim for an equality between timespans: finding F-C14-timespan-eq) *)
+Theorem ill_typed_rejected : forall res bound tns tv s t e,
+  parse_string tv s = POk (Some t) -> of_tree res bound tns t = TConv e ->
+  quirk_free e = true -> typeof e <> Some DBool -> has_span_eq e = false -> where_verdict res bound tns tv s = Reject.
+Proof. exact ill_typed_rejected_p. Qed.
+Print Assumptions ill_typed_rejected.
+
+Theorem never_accepted_ill_typed : forall res bound tns tv s t e,
+  parse_string tv s = POk (Some t) -> of_tree res bound tns t = TConv e ->
+  quirk_free e = true -> typeof e <> Some DBool -> where_verdict res bound tns tv s <> Accept.
+Proof. exact never_accepted_ill_typed_p. Qed.
+Print Assumptions never_accepted_ill_typed.
+
+(* function calls and range literals outside IN never convert; parentheses are transparent; an identifier that
+   visitIdentifier refuses (or an unbound bind name) anywhere in the tree prevents conversion *)
+Theorem refused_shapes : forall res bound tns f args a b st x,
+  of_tree res bound tns (Call f args) = TRej /\ of_tree res bound tns (Range a b st) = TRej /\
+  of_tree res bound tns (Binary x BEq (Range a b st)) <> TConv (ENull) /\
+  (forall e, of_tree res bound tns (Binary (Range a b st) BEq x) <> TConv e) /\
+  (forall e, of_tree res bound tns (Unary UNot (Range a b st)) <> TConv e) /\
+  (forall e, of_tree res bound tns (Parens (Call f args)) <> TConv e).
+Proof. exact refused_shapes_p. Qed.
+Print Assumptions refused_shapes.
+
+Theorem parens_transparent : forall res bound tns t,
+  of_tree res bound tns (Parens t) = of_tree res bound tns t /\
+  tree_verdict res bound tns (Parens t) = tree_verdict res bound tns t.
+Proof. exact parens_transparent_p. Qed.
+Print Assumptions parens_transparent.
+
+Theorem unknown_name_never_converts : forall res bound tns n t e,
+  res n = None -> mentions n t = true -> of_tree res bound tns t <> TConv e.
+Proof. exact unknown_name_never_converts_p. Qed.
+Print Assumptions unknown_name_never_converts.
+
+(* non-vacuity: a resolution table with an int, a string, a timespan and a region column and two bind names *)
+Definition res_ex (n : string) : option rid :=
+  if String.eqb n "detector" then Some (RCol 0%N TyInt) else if String.eqb n "instrument" then Some (RCol 1%N TyStr)
+  else if String.eqb n "visit.timespan" then Some (RCol 2%N TySpan) else if String.eqb n "visit.timespan.begin" then Some (RBegin 2%N)
+  else if String.eqb n "visit.region" then Some ROther else if String.eqb n "null" then Some RNull
+  else if String.eqb n "ids" then Some (RSeq [VInt 1; VInt 2]) else if String.eqb n "d" then Some (RLit (VInt 1)) else None.
+Definition bound_ex (n : string) : bool := String.eqb n "ids" || String.eqb n "d".
+Definition verdict_ex := where_verdict res_ex bound_ex (fun _ => 0%Z) tv_id.
+Example verdict_examples :
+  verdict_ex "Detector IN (1..5:2, :ids, :D) AND NOT (instrument = 'Cam' OR (T'2020-01-01', NULL) OVERLAPS visit.timespan)" = Accept /\
+  verdict_ex "detector = 'a'" = Reject /\ verdict_ex "detector" = Reject /\ verdict_ex "detector = 1..5" = Reject /\
+  verdict_ex "detector = :nobody" = Reject /\ verdict_ex "foo(detector) = 1" = Reject /\ verdict_ex "detector = 1 AND" = Reject /\
+  verdict_ex "+instrument = 'a'" = Reject /\ verdict_ex "(1, 2) OVERLAPS visit.timespan" = Reject /\ verdict_ex "" = Accept /\
+  verdict_ex "visit.region OVERLAPS POINT(1, 2)" = NoClaim /\ verdict_ex "visit.timespan = visit.timespan" = NoClaim /\
+  verdict_ex "visit.timespan.begin < T'2020-01-01' AND detector.nosuch = 1" = Reject.
+Proof. vm_compute. repeat split; reflexivity. Qed.
+Example ill_typed_rejected_hyps :
+  exists t e, parse_string tv_id "detector = 'a' OR instrument" = POk (Some t) /\ of_tree res_ex bound_ex (fun _ => 0%Z) t = TConv e /\
+    quirk_free e = true /\ typeof e <> Some DBool /\ has_span_eq e = false.
+Proof. eexists; eexists. repeat split; try (vm_compute; reflexivity). vm_compute. discriminate. Qed.
